@@ -224,6 +224,19 @@ class Ev:
             return ('call', name) + tuple(T(a) for a in args)
         return ('unknown', show(e)[:60])
 
+    def decl(self, f, s, env, eff, depth):
+        for v in s['v']:
+            if v.get('init') is not None:
+                t = self.term(f, v['init'], env, eff, depth)
+                env[v['d']] = t
+                if v.get('bind'):
+                    # auto [a, b] = e;  the call is evaluated once (an effect), the names denote its components
+                    eff.append(t)
+                    for i, b_ in enumerate(v['bind']):
+                        env[b_['d']] = ('get', i, ('result-of', t[1] if len(t) > 1 else '?'))
+            else:
+                env[v['d']] = ('var', v.get('n', '?'))
+
     def block(self, f, stmts, env, depth=0):
         """-> (effects, return term or None)"""
         eff = []
@@ -233,15 +246,13 @@ class Ev:
                 e2, r2 = self.block(f, s.get('s', []) + stmts[si + 1:], env, depth)
                 return eff + e2, r2
             if k == 'decl':
-                for v in s['v']:
-                    if v.get('init') is not None:
-                        env[v['d']] = self.term(f, v['init'], env, eff, depth)
-                    else:
-                        env[v['d']] = ('var', v.get('n', '?'))
+                self.decl(f, s, env, eff, depth)
                 continue
             if k == 'ret':
                 return eff, (self.term(f, s['e'], env, eff, depth) if s.get('e') is not None else ('void',))
             if k == 'if':
+                if s.get('init') is not None and s['init'].get('k') == 'decl':
+                    self.decl(f, s['init'], env, eff, depth)       # if (auto *p = ...; p)
                 c = self.term(f, s['c'], env, eff, depth)
                 rest = stmts[si + 1:]
                 t_st = [s['t']] if s.get('t') is not None else []
@@ -471,7 +482,7 @@ def rule_C(ck, u, fs, R):
         news = [t for t in subterms([eff, ret]) if t and t[0] == 'new']
         if not news or any(t[1] != want for t in news):
             dets.append('constructs %s' % ([str(t[1])[:60] for t in news],))
-        if not (ret and ret[0] == 'ite' and ret[1] == ('param', pn[4])):
+        if not (ret and ret[0] == 'ite' and ret[1] in (('param', pn[4]), ('cast', 'Params', ('param', pn[4])))):
             dets.append('the choice between construction with and without parameters is not `if (%s)`' % pn[4])
         else:
             w, wo = ret[2], ret[3]
@@ -497,6 +508,14 @@ def rule_C(ck, u, fs, R):
         ok = len(eff) == 1 and len(got) == 1 and got[0][:2] == want[:2] and got[0][3:] == want[3:]
         ck.ob('C.runtime-types', name, f.where(), ok, '' if ok else 'does not forward (name, value) to ptree::put unchanged: `%s`' % tshow(tuple(eff), 100))
 
+    if 'amgcl_params_read_json' in fs:
+        f = fs['amgcl_params_read_json']
+        eff, ret, events = R['amgcl_params_read_json']
+        pn = [f.decl(d)['n'] for d in f.params]
+        want_args = (('param', pn[1]), ('deref', ('cast', 'Params', ('param', pn[0]))))
+        calls = [t for t in eff if t and t[0] == 'call' and t[1].split('::')[-1] == 'read_json']
+        ok = len(eff) == 1 and len(calls) == 1 and tuple(calls[0][2:4]) == want_args
+        ck.ob('C.runtime-types', 'amgcl_params_read_json', f.where(), ok, '' if ok else 'is not exactly read_json(fname, *static_cast<Params*>(prm)) (the tree is replaced by the file, as in the C++ interface): `%s`' % tshow(tuple(eff), 120))
     ck.rule('C.forward', 'amgcl_precond_apply performs exactly amg.apply([rhs, rhs + n), [x, x + n)) and amgcl_solver_solve* exactly solver([A,] [rhs, rhs + n), [x, x + n)) on the cast handle, '
                          'n being the size of that object; nothing else touches rhs or x', 4)
     for name, (member, fam, with_matrix) in FORWARD.items():
@@ -534,6 +553,12 @@ def rule_C(ck, u, fs, R):
                     exp_args = args
                 if tuple(exp_args) != (want_rhs, want_x):
                     dets.append('the call is %s(%s), expected (%s, %s)' % (member, ', '.join(tshow(a, 60) for a in exp_args), tshow(want_rhs, 60), tshow(want_x, 60)))
+            # nothing else may touch the matrix handed to the solver (a sort or scaling of a copy changes the summation order / the operator)
+            if with_matrix and args:
+                for t in eff:
+                    for s_ in subterms(t):
+                        if s_ and s_[0] in ('mcall', 'call') and s_ != c and not any(y == c for y in subterms(s_)) and any(y == args[0] for y in subterms(s_)) and args[0][0] == 'tuple':
+                            dets.append('the matrix is also passed to `%s` before the solve: the C++ interface is called with the caller\'s arrays as they are' % tshow(s_, 60))
             # nothing else may touch x / rhs: any effect that mentions the output array outside that call
             xname = pn[5] if with_matrix else pn[2]
             for t in eff:
